@@ -69,6 +69,7 @@ pub fn main(args: &Args) -> i32 {
     let weights = Weights {
         msg: 5,
         restart: 7,
+        solo_group: 2,
         redeliver: 3,
         immediate: 0,
         ..Weights::default()
